@@ -6,6 +6,7 @@ CONSTANTS
   Offsets = {0, 1, 2, 3}
   BlockSize = 2
   Known = @KNOWN@
+  Guard = @GUARD@
   Schema <- SchemaIntStr
   IdxDefs <- IdxIntStr
   SortDefs <- SortS
@@ -15,9 +16,12 @@ CONSTANTS
   HasMode = "@HASMODE@"
   Replica = FALSE
   Transport = "log"
-  AllowFail = FALSE
-  AllowRollback = TRUE
+  AllowFail = @FAIL@
+  AllowRollback = @ROLLBACK@
   AllowDelete = TRUE
   AllowInsert = TRUE
   LateInitSel = FALSE
-INVARIANTS ReadBack IndexCoherent SortCoherent KeyCoherent NoCollision OccupiedIsLive NoStaleValues StreamIds
+  Rep = "rep"
+  ReplayAtEnd = TRUE
+INVARIANTS FillAccounting ReadBack IndexCoherent SortCoherent KeyCoherent NoCollision OccupiedIsLive NoStaleValues StreamIds
+PROPERTIES RollbackNoTrace
